@@ -301,6 +301,9 @@ def run_property(prop, tier, replay=None):
     mod = importlib.import_module(f'vf.props.{prop.lower()}')
     seed = int(os.environ.get('VERIF_SEED', '0'))
     evidence_path = os.path.join(VERIF_DIR, 'evidence', f'{prop}.json')
+    if os.path.realpath(REPO_DIR) != '/repo':
+        # break-tests against a scratch copy of the repository never overwrite the evidence of /repo itself
+        evidence_path = os.path.join(VERIF_DIR, '.scratch', 'evidence-other-tree', f'{prop}.json')
     os.makedirs(os.path.dirname(evidence_path), exist_ok=True)
     if os.path.exists(evidence_path) and not replay:
         os.remove(evidence_path)
